@@ -135,7 +135,8 @@ def _shards(tier):
             {"n": 5, "ops": ["read", "read", "read", "tick6"], "connected": True}]
     if tier == "quick":
         return deep + [{"n": 3, "ops": [a], "connected": c} for a in OPS for c in (True, False)]
-    return [{"n": 5, "ops": [a, b], "connected": c} for a in OPS for b in OPS for c in (True, False)]
+    deeper = [dict(d, n=d["n"] + 1) for d in deep]
+    return deeper + [{"n": 4, "ops": [a, b], "connected": c} for a in OPS for b in OPS for c in (True, False)]
 
 
 OBLIGATIONS = [Obligation(
@@ -144,7 +145,7 @@ OBLIGATIONS = [Obligation(
     encoded=["openpectus.engine.hardware_recovery:ErrorRecoveryDecorator"],
     symbolic="per step: operation selector over read/read_batch/write/write_batch/tick/6 ticks/connect, hardware failure bit, reconnect outcome, "
              "elapsed integer seconds 0..20000 (crosses the 10 s and 18000 s timeouts by solver choice), device and written values",
-    bounds={"quick": "3 operations from either initial state (connected / disconnected hardware), plus 4/5-operation sequences starting with read,read,read(,tick6) or write_batch,read,write (reach Error and recover)", "thorough": "5 operations"},
+    bounds={"quick": "3 operations from either initial state (connected / disconnected hardware), plus 4/5-operation sequences starting with read,read,read(,tick6) or write_batch,read,write (reach Error and recover)", "thorough": "4 operations from either initial state (every pair of first operations is a shard), plus the deep sequences with one more free operation (5/6 operations)"},
     assumptions=["hardware_recovery.time replaced by a harness clock (arbitrary non-decreasing integer seconds)",
                  "_setup_decorated_method_forwards stubbed", "decorated hardware = in-memory fake",
                  "at exactly timeout seconds either successor state is accepted (the documentation does not fix the boundary)",
